@@ -1,7 +1,7 @@
 SPECIFICATION Spec
 CONSTANTS
   Atoms <- AtomsFull
-  AtomsMid <- AtomsMid6
+  AtomsMid <- AtomsMid4
   AtomsDeep <- AtomsDeep2
   MaxLen = 2
   MaxNest = 24
